@@ -9,6 +9,7 @@ pub mod c04;
 pub mod c05;
 pub mod c06;
 pub mod c07;
+pub mod c08;
 pub mod c09;
 pub mod c10;
 pub mod c11;
@@ -36,6 +37,7 @@ pub fn all() -> Vec<Prop> {
         Prop { id: "C05", level: "fault_enumeration", run: c05::run },
         Prop { id: "C06", level: "exploration", run: c06::run },
         Prop { id: "C07", level: "exploration", run: c07::run },
+        Prop { id: "C08", level: "exploration", run: c08::run },
         Prop { id: "C09", level: "exploration", run: c09::run },
         Prop { id: "C10", level: "exploration", run: c10::run },
         Prop { id: "C11", level: "fault_enumeration", run: c11::run },
